@@ -4,6 +4,7 @@
 package runinproc
 
 import (
+	"errors"
 	"fmt"
 	"os"
 	"path/filepath"
@@ -55,6 +56,9 @@ type Step struct {
 	Force   bool           `json:"force,omitempty"`
 	Fail    map[string]int `json:"fail,omitempty"`  // task -> index of its failing command
 	Whole   bool           `json:"whole,omitempty"` // rmcache: remove .spok entirely, else only cache.json
+	// Abort: tasks whose first command makes the runner itself return an error (what a command
+	// that is not valid shell syntax does), so that the whole run stops with an error at that task.
+	Abort []string `json:"abort,omitempty"`
 }
 
 // CacheCase is a program, an initial tree and a history.
@@ -96,6 +100,7 @@ type recorder struct {
 	fail  map[string]int
 	// onStart is called when the first command of a task runs (side effects, snapshots)
 	onStart func(task string)
+	abort   map[string]bool
 }
 
 func (r *recorder) Run(cmd string, _ iostream.IOStream, taskName string, _ []string) (shell.Result, error) {
@@ -103,6 +108,10 @@ func (r *recorder) Run(cmd string, _ iostream.IOStream, taskName string, _ []str
 	r.count[taskName]++
 	if idx == 0 && r.onStart != nil {
 		r.onStart(taskName)
+	}
+	if idx == 0 && r.abort[taskName] {
+		r.calls = append(r.calls, call{task: taskName, status: -1})
+		return shell.Result{}, errors.New("injected: command is not valid shell syntax")
 	}
 	status := 0
 	if fi, ok := r.fail[taskName]; ok && fi == idx {
@@ -181,7 +190,10 @@ type runResult struct {
 }
 
 func doRun(root, src string, st Step, onStart ...func(string)) runResult {
-	rec := &recorder{count: map[string]int{}, fail: st.Fail}
+	rec := &recorder{count: map[string]int{}, fail: st.Fail, abort: map[string]bool{}}
+	for _, a := range st.Abort {
+		rec.abort[a] = true
+	}
 	if len(onStart) > 0 {
 		rec.onStart = onStart[0]
 	}
@@ -384,7 +396,7 @@ func execCache(id string, s *ev.Shard, root string, c CacheCase) *rp.Fail {
 					sawSkip++
 				}
 			}
-			where := fmt.Sprintf("step %d (run %v force=%v fail=%v)", i, st.Tasks, st.Force, st.Fail)
+			where := fmt.Sprintf("step %d (run %v force=%v fail=%v abort=%v)", i, st.Tasks, st.Force, st.Fail, st.Abort)
 
 			// ---- predicates -------------------------------------------------------
 			for _, r := range rr.results {
